@@ -82,7 +82,12 @@ type Gen struct {
 	cellClosure map[string]*closureVal // address of a function-typed variable -> the closure stored in it
 	arrSync     map[string][2]string
 	tparamTypes map[string]*types.TypeParam
+	viewArrs    []frameW  // leaf arrays whose element view was materialised (not real writes)
+	frec        *[]frameW // when set, havocLoc records the locations it writes (frame check)
 }
+
+// frameW: one element of a function's frame: a predicate on the address r within heap component key.
+type frameW struct{ key, pred string }
 
 func NewGen(w *World, fnName string) *Gen {
 	g := &Gen{W: w, sc: NewScript(), fnName: fnName, structs: map[string]string{}, structTy: map[string]*types.Struct{},
